@@ -137,9 +137,11 @@ func c06WalkDir(b []byte, bs int) (count, end int) {
 	for i < len(b) {
 		l := int(b[i])
 		if l == 0 {
+			var nz byte
 			for j := i; j < len(b) && j/bs == i/bs; j++ {
-				vp.Assert(b[j] == 0, "unused rest of a block is zero")
+				nz |= b[j]
 			}
+			vp.Assert(nz == 0, "unused rest of a block is zero")
 			i = (i/bs + 1) * bs
 			continue
 		}
@@ -163,15 +165,16 @@ func c06RRKids(ns []int) []*finalizeFileInfo {
 	return kids
 }
 
-// VP_C06_rr_dir_size: Rock Ridge root directory with six 254-byte records and two records of
-// arbitrary size (name lengths na, nb in 1..131): the data length computed by
+// VP_C06_rr_dir_size: Rock Ridge root directory with records that fill the first block up to
+// byte 1908 and a last record of arbitrary size (name length nb in 1..131, i.e. ending before,
+// at or after the block boundary): the data length computed by
 // calculateDirectorySize equals the reference layout (entriesToBytes for the same directory is
 // compared with it in VP_C06_rr_root_*, where the structure is concrete).
 func VP_C06_rr_dir_size() {
 	vp.Unwind(300)
 	vp.AllocCap(4200)
 	kids := c06RRKids([]int{131, 131, 131, 131, 131, 131})
-	fa, _, na := c06RRFile("a", 131)
+	fa, _, na := c06RRFileN("a", 17, 17)
 	fa.shortname = "AAAAAAAA"
 	fb, _, nb := c06RRFile("b", 131)
 	fb.shortname = "AAAAAAAB"
